@@ -99,6 +99,13 @@ func workloads() []workload {
 			blocks: func(p *chainx.Prefix) ([]string, []*reftx.Block) {
 				return mk(p, [4]string{"A1", "P", "1", "M0"}, [4]string{"A2", "A1", "1", "M1"}, [4]string{"A3", "A2", "1", ""})
 			}},
+		// a longer side branch whose last block is invalid when connected: the reorganisation fails, the
+		// block is dropped while it is still queued for writing; then the chain goes on and is snapshotted
+		{name: "W6-failed-reorg-then-extend-and-snapshot", events: []string{"A1", "B1", "B2x", "A2", "idle", "A3", "close"},
+			blocks: func(p *chainx.Prefix) ([]string, []*reftx.Block) {
+				return mk(p, [4]string{"A1", "P", "1", "M0"}, [4]string{"B1", "P", "2", "M2"}, [4]string{"B2x", "B1", "2", "M2"},
+					[4]string{"A2", "A1", "1", "M1"}, [4]string{"A3", "A2", "1", ""})
+			}},
 		{name: "W5-side-branch-during-snapshot", events: []string{"A1", "A2", "idle-nowait", "B1", "idle", "A3", "close"},
 			blocks: func(p *chainx.Prefix) ([]string, []*reftx.Block) {
 				return mk(p, [4]string{"A1", "P", "1", "M0"}, [4]string{"A2", "A1", "1", "M1"}, [4]string{"B1", "P", "2", "M2"}, [4]string{"A3", "A2", "1", ""})
@@ -161,6 +168,10 @@ type recOut struct {
 	FinalUTXO string   `json:"final_utxo"`
 	ReTip     string   `json:"reopen_tip"`
 	ReUTXO    string   `json:"reopen_utxo"`
+	Audit     string   `json:"audit"` // "" or the first stored block of the active chain that does not read back
+	AuditN    int      `json:"audit_blocks"`
+	ScanTip   string   `json:"rescan_tip"`
+	ScanUTXO  string   `json:"rescan_utxo"`
 }
 
 func tipOf(ch *chain.Chain) string { return hex.EncodeToString(ch.LastBlock().BlockHash.Hash[:]) }
@@ -250,7 +261,31 @@ func recoverMain(dir string, blocksFile string, libDefault bool) {
 	e.Close()
 	e2 := minichain.Open(dir, o)
 	out.ReTip, out.ReUTXO = tipOf(e2.Ch), utxoOf(e2.Ch)
+	// every block of the active chain must read back from the files (nothing is cached after a
+	// restart) as the bytes that hash to its name
+	for n := e2.Ch.LastBlock(); n != nil && n.Parent != nil && out.Audit == ""; n = n.Parent {
+		func() {
+			defer func() {
+				if r := recover(); r != nil {
+					out.Audit = fmt.Sprintf("reading block %d panics: %v", n.Height, r)
+				}
+			}()
+			data, _, err := e2.Ch.Blocks.BlockGet(n.BlockHash)
+			switch {
+			case err != nil:
+				out.Audit = fmt.Sprintf("block %d %s: %v", n.Height, n.BlockHash.String()[:12], err)
+			case len(data) < 80 || !btc.NewSha2Hash(data[:80]).Equal(n.BlockHash):
+				out.Audit = fmt.Sprintf("block %d %s reads back as other data", n.Height, n.BlockHash.String()[:12])
+			}
+			out.AuditN++
+		}()
+	}
 	e2.Close()
+	// a third start that rebuilds the unspent set from the block files alone
+	o3 := &minichain.Opts{Params: params, Rescan: true}
+	e3 := minichain.Open(dir, o3)
+	out.ScanTip, out.ScanUTXO = tipOf(e3.Ch), utxoOf(e3.Ch)
+	e3.Close()
 	b, _ := json.Marshal(out)
 	fmt.Fprintln(ev.Out, string(b))
 	os.Exit(0)
@@ -328,7 +363,11 @@ func main() {
 			default:
 				rec.Marker("BEGIN " + evn)
 				res := deliverClient(e.Ch, byName[evn].Bytes())
-				if res != "ok" {
+				if strings.HasSuffix(evn, "x") {
+					if res == "ok" {
+						ev.HarnessError("workload %s: block %s is meant to fail when it is connected", w.name, evn)
+					}
+				} else if res != "ok" {
 					ev.HarnessError("workload %s: block %s: %s", w.name, evn, res)
 				}
 				model.Add(byName[evn])
@@ -501,6 +540,12 @@ func judge(res crashfs.Result, validated map[string]bool, utxoAt func(string) (s
 	}
 	if o.ReTip != o.FinalTip || o.ReUTXO != o.FinalUTXO {
 		return "clean-restart-changes-state", "close + reopen does not reproduce the pre-shutdown state"
+	}
+	if o.Audit != "" {
+		return "stored-block-does-not-read-back", "after recovery, continued use and a clean restart: " + o.Audit
+	}
+	if o.ScanTip != o.FinalTip || o.ScanUTXO != o.FinalUTXO {
+		return "rescan-of-block-files-differs", fmt.Sprintf("rebuilding the unspent set from the block files gives tip=%s utxo=%s, the node had tip=%s utxo=%s", o.ScanTip[:12], o.ScanUTXO, o.FinalTip[:12], o.FinalUTXO)
 	}
 	return "ok", ""
 }
